@@ -19,3 +19,20 @@ out = ['# Seeded changes kept under /verif/seeded and what the checks say about 
        '| seed | property | what it breaks | what it needs to manifest | checks run (latest) |', '|---|---|---|---|---|'] + rows
 open(os.path.join(here, 'seeded', 'RESULTS.md'), 'w').write('\n'.join(out) + '\n')
 print(len(rows), 'seeds')
+
+# compact summary into DESIGN.md between the markers
+import re
+comp = ['| seed | property | needs | result |', '|---|---|---|---|']
+for d in sorted(glob.glob(os.path.join(here, 'seeded', '*'))):
+    mp = os.path.join(d, 'meta.json')
+    if not os.path.exists(mp):
+        continue
+    m = json.load(open(mp))
+    cr = m.get('checks_run', {})
+    res = '; '.join('%s %s' % (c, '✔' if v.get('detected') else '✘ (exit %s)' % v.get('exit')) for c, v in cr.items())
+    note = m.get('coordinator_note', '')
+    comp.append('| %s | %s | %s | %s%s |' % (os.path.basename(d), m.get('property'), (m.get('needs_to_manifest') or '').replace('|', '/').replace('\n', ' ')[:150], res, (' — ' + note) if note else ''))
+dp = os.path.join(here, 'DESIGN.md')
+t = open(dp).read()
+t = re.sub(r'<!-- SEEDTABLE:BEGIN -->.*?<!-- SEEDTABLE:END -->', lambda _: '<!-- SEEDTABLE:BEGIN -->\n' + '\n'.join(comp) + '\n<!-- SEEDTABLE:END -->', t, flags=re.S)
+open(dp, 'w').write(t)
